@@ -652,6 +652,20 @@ theorem C04_skeleton_stable_batch {ε : Rat} (hε : 0 ≤ ε) (hsel : SelOK sel)
 
 end stableFamily
 
+/-- **C04_margin_rule**: what the driver evaluates on every float case is `sepB m` with ONE margin `m` on
+every selection of the trajectory (`tieFree (fun _ => m)`). That implies the step-dependent hypothesis of
+`C04_skeleton_stable` for every `ε` whose largest demanded margin - `2 · maxIters · ε`, at the last step -
+does not exceed `m` (monotonicity of `sepB` / `tieFree` in the margin). -/
+theorem C04_margin_rule {ε m : Rat} (hε : 0 ≤ ε) (sel : Sel) (cfg : Cfg) (lm : LM σ) (dflt : σ)
+    (maxIters : Nat) (e : Elem σ) (hm : margin ε (maxIters - 1) ≤ m)
+    (h : tieFree (fun _ => m) sel cfg lm dflt maxIters 0 e = true) :
+    tieFree (margin ε) sel cfg lm dflt maxIters 0 e = true := by
+  refine tieFree_mono sel cfg lm dflt maxIters 0 e ?_ h
+  intro t' _ h2
+  have h3 : accErr ε (t' + 1) ≤ accErr ε (maxIters - 1 + 1) := accErr_mono hε (by omega)
+  unfold margin at hm ⊢
+  grind
+
 /-! ### Non-vacuity of the stability theorems, and the margin cannot be dropped
 
 Second run: a language model with a different state type (the running SUM of the consumed tokens,
@@ -760,5 +774,59 @@ theorem C04_margin_needed_counterexample :
   | 0 => simp only [List.getD_cons_zero, Score.Close]; constructor <;> grind
   | 1 => simp only [List.getD_cons_succ, List.getD_cons_zero, Score.Close]; constructor <;> grind
   | n + 2 => simp [Score.Close]
+
+/-! #### Audit (round e): `C04_topk_stable` and `C04_margin_rule` on concrete instances
+
+Five candidates, `K = 3`: two are left out, one of them finite (pruning); the exact vector is selected by
+`selIns` (ties towards the smaller index), the perturbed one (entries up to 1/10 off) by `selRev`; every
+selected candidate is more than 1/2 away from every other one. -/
+
+def tkC : List Score := [some 0, some (-2), none, some (-1), some (-4)]
+def tkC' : List Score :=
+  [some (-(1 : Rat) / 10), some (-2 + 1 / 10), none, some (-1 - 1 / 10), some (-4)]
+
+example : selIns tkC 3 = [0, 3, 1] ∧ selRev tkC' 3 = [0, 3, 1]
+    ∧ sepB (1 / 2) tkC (selIns tkC 3) = true := by decide +kernel
+
+theorem tkClose : ∀ i, Score.Close (1 / 10) (tkC.getD i none) (tkC'.getD i none) := by
+  intro i
+  match i with
+  | 0 => simp only [tkC, tkC', List.getD_cons_zero, Score.Close]; constructor <;> grind
+  | 1 => simp only [tkC, tkC', List.getD_cons_succ, List.getD_cons_zero, Score.Close]; constructor <;> grind
+  | 2 => simp [tkC, tkC', Score.Close]
+  | 3 => simp only [tkC, tkC', List.getD_cons_succ, List.getD_cons_zero, Score.Close]; constructor <;> grind
+  | 4 => simp only [tkC, tkC', List.getD_cons_succ, List.getD_cons_zero, Score.Close]; constructor <;> grind
+  | n + 5 => simp [tkC, tkC', Score.Close]
+
+-- C04_topk_stable: ALL hypotheses together (pruning happens: candidates 2 and 4 are left out)
+example := C04_topk_stable (m := 1 / 2) (ε := 1 / 10) (by decide +kernel) (by decide +kernel)
+  (c := tkC) (c' := tkC') (K := 3) rfl tkClose (C04_selIns_ok tkC 3 (by decide))
+  (selRev_ok tkC' 3 (by decide)) (by decide +kernel)
+
+/-- the `-inf` clause: two finite candidates for `K = 3`; the exact selection has to take a `-inf`
+candidate (index 1), the perturbed one takes another `-inf` candidate (index 3) at that position -/
+def tkD : List Score := [some 0, none, some (-1), none]
+def tkD' : List Score := [some (1 / 10), none, some (-1), none]
+
+theorem tkDClose : ∀ i, Score.Close (1 / 10) (tkD.getD i none) (tkD'.getD i none) := by
+  intro i
+  match i with
+  | 0 => simp only [tkD, tkD', List.getD_cons_zero, Score.Close]; constructor <;> grind
+  | 1 => simp [tkD, tkD', Score.Close]
+  | 2 => simp only [tkD, tkD', List.getD_cons_succ, List.getD_cons_zero, Score.Close]; constructor <;> grind
+  | 3 => simp [tkD, tkD', Score.Close]
+  | n + 4 => simp [tkD, tkD', Score.Close]
+
+example : selIns tkD 3 = [0, 2, 1] ∧ selRev tkD' 3 = [0, 2, 3] := by decide +kernel
+example := C04_topk_stable (m := 1 / 2) (ε := 1 / 10) (by decide +kernel) (by decide +kernel)
+  (c := tkD) (c' := tkD') (K := 3) rfl tkDClose (C04_selIns_ok tkD 3 (by decide))
+  (selRev_ok tkD' 3 (by decide)) (by decide +kernel)
+
+/-- C04_margin_rule on the run of `hSearch_ok`: every selection has a margin of more than 1/4 (constant),
+which covers `ε = 1/100` for three steps (largest demanded margin 6/100); the result is the hypothesis
+`hSearch_tieFree` of the stability examples above. -/
+example : tieFree (margin (1 / 100)) selIns hCfg hLM [] 3 0 (initElem []) = true :=
+  C04_margin_rule (ε := 1 / 100) (m := 1 / 4) (by decide +kernel) selIns hCfg hLM [] 3 (initElem [])
+    (by decide +kernel) (by decide +kernel)
 
 end PdtVerif.Beam
